@@ -40,7 +40,7 @@ def fam_contention(rng, n):
                                       for _ in range(nc)],
                           'life': 'full'})
         sc = {'loops': loops, 'func': {'dur': rng.choice([0, 0, -1, 1.0, 1.0])},
-              'mapping': rng.choice(['dict', 'dict', 'mm', 'lru']),
+              'mapping': rng.choice(['dict', 'dict', 'mm', 'lru', 'expc']),
               'strategy': _strategies(rng, 1)[0]}
         out.append(sc)
     return out
@@ -70,7 +70,7 @@ def fam_lifecycle(rng, n):
             loops.append(ls)
         sc = {'loops': loops, 'func': {'dur': rng.choice([1.0, 2.0, 3.0]),
                                        'fail': rng.choice([[], [], [], [1], [2]])},
-              'mapping': rng.choice(['dict', 'dict', 'mm']),
+              'mapping': rng.choice(['dict', 'dict', 'mm', 'expc']),
               'strategy': _strategies(rng, 1)[0]}
         out.append(sc)
     return out
